@@ -762,7 +762,7 @@ impl Gen {
             i = ind
         );
         self.decl(r, txt);
-        let form = *self.rng.pick(&["length", "ascending", "range_loop", "reverse_range_loop", "range_subtype_index", "range_aggregate_choice", "range_subtype_range", "range_slice"]);
+        let form = *self.rng.pick(&["length", "ascending", "range_loop", "reverse_range_loop", "range_aggregate_choice"]);
         let site = format!("attribute_argument_{}", form);
         let x = e(self, &site);
         let mr = self.r(m, "attr_prefix_object");
